@@ -78,17 +78,18 @@ PROPS = {
         explanation='Verus; per-token classification contracts.',
     ),
     'C11': dict(
-        units=['lex', 'synx'],
+        units=['lex', 'synx', 'sema'],
         decided=[
             'every malformedness flag of the lexer (unterminated string/bitstring/block comment, empty int, empty exponent, bad version, invalid identifier) yields a non-empty message',
             'Converter::push records it under the index of that very token; nothing is recorded otherwise',
             'numeric literals: empty_int / empty_exponent are set exactly when the OpenQASM 3 numeric syntax (num_spec) says so: a base prefix without digits, an exponent marker [sign] without digits',
+            'analyze_source (unit SEMA): whenever the source or any included file has a syntax diagnostic (SourceTrait::have_syntax_errors, taken as specified) the result carries a fresh context: empty program, no semantic diagnostics, none for included files; otherwise the analysis runs and the flag is false',
             'parse_text_check_lex (unit SYNX): the tree is withheld exactly when the lexed text has a lexical diagnostic, and then exactly the lexical diagnostics are returned (one syntax error per diagnostic); otherwise the tree of the same text is returned',
         ],
         not_decided=[
             'that the string / comment scanners set `terminated` exactly when the closing delimiter was consumed',
             'recursive have_syntax_errors over included files',
-            'analyze_source gate (generic SourceTrait plumbing: not verified)',
+            'SourceTrait::have_syntax_errors itself (recursion over included files, closures; oq3_source_file is not verified): analyze_source is proved against its specification',
         ],
         explanation='Verus.',
     ),
@@ -147,6 +148,7 @@ PROPS = {
             'SymbolTable::exit_scope / enter_scope assertions and Program::set_version / AnnotatedStmt::new panics are preconditions (call sites in unverified functions: not decided)',
             'the statement analyser itself is under contract (stmt_to_asg_stmt, expr_stmt_to_asg_stmt, block_*, list helpers, bind_*; closures desugared by rule D3/D16, with_scope! expanded by its definition D17): every unwrap / unreachable! in it is proved, assumed-parser or a recorded finding; the `unreachable!` of the nested-include arm is PROVED unreachable (blocks are only analysed inside an opened scope)',
             'scopes are balanced: every analyser function leaves exactly the scopes open that were open on entry (scope types equal), so enter_scope / exit_scope preconditions (never Global, never close the global scope) hold at every call site and only the global scope is open after a top-level statement',
+            'syntax_to_semantic (the top-level loop, D18/D21/D22 desugarings): every unwrap is proved or assumed-parser, `included_iter.next().unwrap()` is proved from the assumed shape of `included`; it is entered and left with only the global scope open (also through the recursion into included files)',
             'unsupported statement kinds (cal, defcal, extern, let, old-style declarations, measure statement, version line) push exactly one NotImplementedError and yield the null statement / nothing',
         ],
         not_decided=['syntax_to_semantic / analyze_source / parse_* (generic SourceTrait plumbing, include recursion): not verified', 'memory / termination of the recursion over trees', 'source_file.rs include handling', 'hand-written AST accessors are total except the three recorded ones (assumed; oq3_syntax is not verified here)'],
@@ -160,6 +162,7 @@ PROPS = {
             'Program::insert_stmt appends; gate-call modifiers are kept; an expression that is present is always translated',
             'every statement kind maps to the graph construct of the same meaning (stmt_kind_ok: 29 kinds; include / annotation / version line yield no node); X::to_stmt wraps self in the Stmt variant whose payload type is X (generated from the enum definition)',
             'expression statements: gate call / modified gate call / gphase / plain expression map to GateCall / GateCall or ModifiedGPhaseCall / GPhaseCall / ExprStmt, and gate modifiers keep their kind, count and order',
+            'syntax_to_semantic: the statements of the program so far are kept in order and this file only appends (also across includes, which are evaluated in place); pending annotations are attached to the next translated statement (an AnnotatedStmt carrying exactly them) and none stays pending; without pending annotations there is no wrapper',
             'argument lists, qubit operand lists, index lists and parameter lists keep their length (nothing dropped or duplicated); a block yields at most one graph statement per source statement, in iteration order',
         ],
         not_decided=['which translated statement ends up in which role (then / else / body): the translation is not a spec function, so roles are only pinned by constructor / accessor contracts and by the scope assertions', 'annotation attachment / include expansion (syntax_to_semantic: not verified)', 'AST accessor roles (e.g. RangeExpr::start_step_stop, IfStmt bodies): methods over rowan nodes, opaque here'],
